@@ -202,9 +202,205 @@ func c11Sweep(c *core.Ctx, k *core.Case) {
 		if s&0xffff == 0 {
 			c.J.Tick()
 		}
+		if s%4099 == 0 {
+			c.NonTrivial(core.HashU64(11, uint64(s)))
+		}
 	}
 	c.Eval(int64(hi-lo) * 2)
 	c.Count("states_swept", int64(hi-lo))
+}
+
+// ---- blind histories: mutations with no value read in between -------------
+//
+// The "history" oracle reads after every event, which re-synchronises any lazily
+// maintained representation (deferred carry, memoised value). The two oracles
+// below only look at the counter at the end of a run of mutations.
+
+func c11Mutate(cnt *security.Count, op uint8, a uint16, b uint8, model uint32) uint32 {
+	switch op {
+	case 0:
+		cnt.Set(a, b)
+		return uint32(a)<<8 | uint32(b)
+	case 1:
+		cnt.SetSQN(b)
+		return model&0xffff00 | uint32(b)
+	case 2:
+		cnt.SetOverflow(a)
+		return model&0xff | uint32(a)<<8
+	case 3:
+		cnt.AddOne()
+		return (model + 1) & 0xffffff
+	case 5:
+		_ = cnt.SQN() // a harmless read of one part
+	case 6:
+		_ = cnt.Overflow()
+	}
+	return model
+}
+
+// c11FinalRead reads the three views in the given order and judges them.
+func c11FinalRead(cnt *security.Count, order int, model uint32) string {
+	var g, g2 uint32
+	var s uint8
+	var o uint16
+	switch order % 4 {
+	case 0:
+		g, s, o = cnt.Get(), cnt.SQN(), cnt.Overflow()
+	case 1:
+		s, o = cnt.SQN(), cnt.Overflow()
+		g = cnt.Get()
+	case 2:
+		o = cnt.Overflow()
+		g = cnt.Get()
+		s = cnt.SQN()
+	case 3:
+		o, s = cnt.Overflow(), cnt.SQN()
+		g = cnt.Get()
+	}
+	g2 = cnt.Get()
+	switch {
+	case g != model:
+		return fmt.Sprintf("Get()=%#x, model %#06x", g, model)
+	case uint32(o)*256+uint32(s) != model:
+		return fmt.Sprintf("Overflow()=%#x SQN()=%#x, model %#06x", o, s, model)
+	case g2 != g:
+		return fmt.Sprintf("second Get()=%#x after %#x", g2, g)
+	}
+	return ""
+}
+
+type c11BlindOp struct {
+	op uint8
+	a  uint16
+	b  uint8
+}
+
+var c11BlindAlphabet = []c11BlindOp{
+	{op: 3}, {op: 1, b: 0}, {op: 1, b: 0xff}, {op: 1, b: 7}, {op: 2, a: 0}, {op: 2, a: 9}, {op: 2, a: 0xffff},
+	{op: 0, a: 0, b: 0}, {op: 0, a: 0xffff, b: 0xff}, {op: 0, a: 3, b: 4}, {op: 5}, {op: 6},
+}
+
+var c11BlindStarts = [][2]int64{{0, 0xff}, {5, 0xff}, {0xffff, 0xff}, {0xfffe, 0xff}, {0, 0xfe}, {0xffff, 0xfe}, {0, 0}, {0xffff, 0}, {0x1234, 0xff}, {0x00ff, 0xff}, {0x0100, 0x00}, {0x7fff, 0x80}}
+
+// oracle "blind-seq": I=[overflow0, sqn0, readOrder, viaZeroValue, op1, op2, ...] (indices
+// into the alphabet) — start state, the mutations, then one read of all views.
+func c11BlindSeq(c *core.Ctx, k *core.Case) {
+	var cnt security.Count
+	cnt.Set(uint16(k.I[0]), uint8(k.I[1]))
+	model := uint32(k.I[0])<<8 | uint32(k.I[1])
+	if k.I[3] == 1 { // reach the start state by increments from one below it
+		cnt.Set(uint16((model-1)>>8), uint8(model-1))
+		cnt.AddOne()
+	}
+	names := ""
+	for _, x := range k.I[4:] {
+		o := c11BlindAlphabet[x]
+		model = c11Mutate(&cnt, o.op, o.a, o.b, model)
+		names += fmt.Sprintf(" %s(%d,%d)", c11OpNames[o.op], o.a, o.b)
+	}
+	c.Eval(1)
+	if msg := c11FinalRead(&cnt, int(k.I[2]), model); msg != "" {
+		last := c11BlindAlphabet[k.I[len(k.I)-1]]
+		c.Fail(k, "blind-sequence-mismatch:"+c11OpNames[last.op], fmt.Sprintf("from %#04x|%#02x, with no Get() in between,%s then read: %s", k.I[0], k.I[1], names, msg))
+	}
+}
+
+// oracle "blind-enum": I=[startIndex, maxLen] — every sequence over the alphabet up to maxLen.
+func c11BlindEnum(c *core.Ctx, k *core.Case) {
+	st := c11BlindStarts[k.I[0]]
+	maxLen := int(k.I[1])
+	seq := make([]int64, 0, maxLen)
+	n := int64(0)
+	var rec func()
+	rec = func() {
+		if len(seq) > 0 {
+			for via := int64(0); via < 2; via++ {
+				kk := &core.Case{Oracle: "blind-seq", Target: "security.Count", I: append([]int64{st[0], st[1], n % 4, via}, seq...)}
+				var cnt security.Count
+				model := uint32(st[0])<<8 | uint32(st[1])
+				cnt.Set(uint16(st[0]), uint8(st[1]))
+				if via == 1 {
+					cnt.Set(uint16((model-1)>>8), uint8(model-1))
+					cnt.AddOne()
+				}
+				for _, x := range seq {
+					o := c11BlindAlphabet[x]
+					model = c11Mutate(&cnt, o.op, o.a, o.b, model)
+				}
+				n++
+				if c11FinalRead(&cnt, int(kk.I[2]), model) != "" {
+					c11BlindSeq(c, kk) // re-run through the reporting oracle
+				}
+			}
+			if n&0xffff == 0 {
+				c.J.Tick()
+			}
+		}
+		if len(seq) == maxLen {
+			return
+		}
+		for x := range c11BlindAlphabet {
+			seq = append(seq, int64(x))
+			rec()
+			seq = seq[:len(seq)-1]
+		}
+	}
+	rec()
+	c.Eval(n)
+	c.Count("blind_sequences", n)
+	c.NonTrivial(core.HashU64(0x11b, uint64(k.I[0])<<8|uint64(maxLen)))
+}
+
+var c11RunLens = []int{1, 2, 3, 127, 128, 129, 255, 256, 257, 511, 512, 32767, 32768, 32769, 65535, 65536, 65537, 131071, 131072, 131073}
+
+// oracle "blind-runs": I=[overflow0, sqn0, seed, segments, mix, long] — segments of
+// mutations (run lengths around the powers of two a stamp, a carry or a counter
+// width could wrap at), all views read only between segments.
+func c11BlindRuns(c *core.Ctx, k *core.Case) {
+	r := prng.New(uint64(k.I[2]))
+	var cnt security.Count
+	cnt.Set(uint16(k.I[0]), uint8(k.I[1]))
+	model := uint32(k.I[0])<<8 | uint32(k.I[1])
+	if msg := c11FinalRead(&cnt, 0, model); msg != "" {
+		c.Fail(k, "blind-run-mismatch:start", msg)
+		return
+	}
+	total := int64(0)
+	for seg := 0; seg < int(k.I[3]); seg++ {
+		n := c11RunLens[r.Intn(len(c11RunLens))]
+		if k.I[5] == 1 && r.Chance(1, 4) {
+			n = 1 << 20
+		}
+		mix := int(k.I[4])
+		if mix == 5 {
+			mix = r.Intn(5)
+		}
+		before := model
+		for i := 0; i < n; i++ {
+			var op uint8
+			switch mix {
+			case 0:
+				op = 3
+			case 1:
+				op = 0
+			case 2:
+				op = 1
+			case 3:
+				op = 2
+			default:
+				op = []uint8{3, 3, 0, 1, 2, 5, 6}[r.Intn(7)]
+			}
+			model = c11Mutate(&cnt, op, uint16(r.Uint32()), r.Byte(), model)
+		}
+		total += int64(n)
+		c.Cover("run_length", fmt.Sprint(n))
+		if msg := c11FinalRead(&cnt, seg, model); msg != "" {
+			c.Fail(k, fmt.Sprintf("blind-run-mismatch:mix%d", mix), fmt.Sprintf("segment %d: %d mutations (mix %d) from %#06x with no read in between, then: %s", seg, n, mix, before, msg))
+			return
+		}
+	}
+	c.Eval(total)
+	c.Count("blind_run_mutations", total)
 }
 
 func init() {
@@ -215,7 +411,7 @@ func init() {
 			"states are reached through the public Set(overflow, sqn); the unexported field is never written directly",
 			"bits 24..31 of the internal word are unobservable and not judged",
 		},
-		Oracles: map[string]func(*core.Ctx, *core.Case){"history": c11History, "sweep": c11Sweep},
+		Oracles: map[string]func(*core.Ctx, *core.Case){"history": c11History, "sweep": c11Sweep, "blind-seq": c11BlindSeq, "blind-enum": c11BlindEnum, "blind-runs": c11BlindRuns},
 		Exhaustive: func(tier string) (bool, string) {
 			return true, "the increment relation and the value/overflow/sqn identity are checked from all 2^24 states; operation sequences are sampled"
 		},
@@ -227,6 +423,14 @@ func init() {
 			for _, op := range c11OpNames[1:] {
 				if cov["op"][op] == 0 {
 					f = append(f, "operation never exercised in a history: "+op)
+				}
+			}
+			if cnt["blind_sequences"] == 0 || cnt["blind_run_mutations"] == 0 {
+				f = append(f, "no blind sequence / run was executed")
+			}
+			for _, n := range []string{"255", "256", "65535", "65536", "65537", "131072"} {
+				if cov["run_length"][n] == 0 {
+					f = append(f, "no unread run of "+n+" mutations")
 				}
 			}
 			if cnt["sqn_rollovers"] == 0 || cnt["full_wraps"] == 0 {
@@ -269,6 +473,30 @@ func init() {
 					c.Do(k)
 					c.NonTrivial(k.Hash())
 					c.Sample(k.Brief())
+				}
+			}})
+		}
+		for si := range c11BlindStarts {
+			si := si
+			us = append(us, core.Unit{Name: fmt.Sprintf("blind-enum-%02d", si), Weight: 8, Run: func(c *core.Ctx) {
+				c.Do(&core.Case{Oracle: "blind-enum", Target: "security.Count", I: []int64{int64(si), int64(c.Pick(4, 5))}})
+			}})
+		}
+		for u := 0; u < 16; u++ {
+			u := u
+			us = append(us, core.Unit{Name: fmt.Sprintf("blind-runs-%02d", u), Weight: 8, Run: func(c *core.Ctx) {
+				for i := 0; i < c.Pick(6, 40); i++ {
+					st := c11BlindStarts[c.R.Intn(len(c11BlindStarts))]
+					if c.R.Bool() {
+						st = [2]int64{int64(c.R.Intn(65536)), int64(c.R.Intn(256))}
+					}
+					long := int64(0)
+					if c.Thorough() {
+						long = 1
+					}
+					k := &core.Case{Oracle: "blind-runs", Target: "security.Count", I: []int64{st[0], st[1], int64(c.R.Uint64() >> 1), int64(c.R.Range(2, 12)), int64((u + i) % 6), long}}
+					c.Do(k)
+					c.NonTrivial(k.Hash())
 				}
 			}})
 		}
